@@ -235,6 +235,9 @@ func (e *Encoder) writeValue(val reflect.Value, tagType byte) error {
 				if err != nil {
 					return err
 				}
+			} else {
+				// a string type with methods that is no TextMarshaler: its own characters
+				str = []byte(val.String())
 			}
 		} else {
 			str = []byte(val.String())
